@@ -467,10 +467,43 @@ def part_table(ctx):
                               'operators, statement juxtapositions'})
 
 
+def part_names(ctx):
+    """Programs with many distinct identifiers (26-200: generated names of one and two letters are reached), among them
+    underscore names, names that look like generated ones and glyph names: the output must be the input modulo ONE
+    renaming - two identifiers never written as one."""
+    from checks import c02
+
+    def body(seed):
+        ch = Choices(seed)
+        n = 26 + ch.below(40) if ch.chance(170) else 66 + ch.below(140)
+        names = c02.gen_names(ch, n)
+        for extra in (b'_', b'_a', b'__', b'a', b'aa'):
+            if extra not in names and ch.chance(150):
+                names[ch.below(len(names))] = extra
+        src = c02.gen_program_text(ch, names)
+        if not c02.fully_parsed(src):
+            ctx.stats.exclude('not_parsed_to_the_end_by_this_tree')
+            return
+        config = ch.pick(CONFIGS)
+        keep_body = b''
+        if config == 'keep_file':
+            keep_body, _k = c02.gen_keep(ch, names)
+        via = ch.weighted([(200, 'lib'), (25, 'file_p8'), (15, 'luamin_p8')])
+        case = {'source': src, 'config': config, 'keep': keep_body, 'via': via}
+        _ri, _ro, mapping = run_case(src, config, keep_body, (), case, via)
+        labs = ['many_names', 'cfg_' + config, 'via_' + via]
+        if any(nm.startswith(b'_') for nm in mapping):
+            labs.append('many_names_with_underscore_name')
+        ctx.stats.case(src + config.encode(), len(mapping) >= 27, {'identifiers': len(mapping), 'config': config, 'via': via,
+                                                                 'source': show(src, 100)}, labs)
+    ctx.hyp('names', st.binary(min_size=2000, max_size=2000), body, max_examples=40 if ctx.quick else 400,
+            shrink=not ctx.quick)
+
+
 def parts(tier):
     if tier == 'quick':
-        return [('programs', part_programs, 8), ('table', part_table, 8)]
-    return [('programs', part_programs, 10), ('table', part_table, 6)]
+        return [('programs', part_programs, 8), ('table', part_table, 6), ('names', part_names, 2)]
+    return [('programs', part_programs, 9), ('table', part_table, 5), ('names', part_names, 2)]
 
 
 def replay(case):
@@ -487,7 +520,7 @@ def vacuity(total, tier):
     msgs = []
     for lab in ('adj_symnum', 'adj_sym_sym', 'adj_number_dot', 'adj_minus_minus', 'adj_bracket_longstring',
                 'line_scoped', 'cfg_default', 'cfg_keep_all', 'cfg_keep_file', 'via_luamin_p8', 'via_luamin_png',
-                'via_build', 'via_file_p8', 'via_luamin_two_carts', 'mode_minimal'):
+                'via_build', 'via_file_p8', 'via_luamin_two_carts', 'mode_minimal', 'many_names_with_underscore_name'):
         if total.classes.get(lab, 0) < 3:
             msgs.append('class %s seen %d times' % (lab, total.classes.get(lab, 0)))
     if total.classes.get('table_cases', 0) < 30000:
